@@ -31,7 +31,7 @@ def gen_hist(seed: int, n: int) -> List[Dict[str, Any]]:
             decl.append(["max_retries", 20 + rng.randint(0, 6)])
         if rng.random() < 0.5:
             decl.append(["retry_on_error", rng.choice([7, 8, 27, 28, 10])])
-        cfg = {"decl": decl, "ser": rng.choice(["json", "pickle"]), "mws": _mws(rng), "retry": _retry(rng)}
+        cfg = {"decl": decl, "ser": rng.choice(["json", "pickle"]), "mws": _mws(rng), "retry": _retry(rng), "shared": rng.random() < 0.3}
         ops: List[Any] = []
         sent = 0
         for _ in range(rng.randint(2, 12)):
@@ -72,7 +72,8 @@ def gen_leak_enum() -> Iterator[Dict[str, Any]]:
             if 0 not in seq and 1 not in seq:
                 continue
             ops = [calls[i] for i in seq] + [["tkiq", False], ["run_last", "ok"]]
-            yield {"cfg": {"decl": [["a", 1]] if (len(seq) + seq[0]) % 2 else [], "ser": "json"}, "ops": ops, "family": "leak_enum"}
+            yield {"cfg": {"decl": [["a", 1]] if (len(seq) + seq[0]) % 2 else [], "ser": "json", "shared": (len(seq) + seq[-1]) % 3 == 0},
+                   "ops": ops, "family": "leak_enum"}
 
 
 def gen_values_enum() -> Iterator[Dict[str, Any]]:
